@@ -347,7 +347,7 @@ func finishCheck(prop, tierName string, tier, seed int, jobs []*job, tmp string,
 	}
 	// ---- classify
 	violations, knownSeen, unrepro, witnessOK, witnessBad := 0, map[string]string{}, 0, 0, 0
-	var samples []interface{}
+	samples := []interface{}{}
 	var lines []string
 	for _, j := range js {
 		switch j.verdict {
